@@ -18,21 +18,26 @@ abbrev memE (σE : State w) : Mem w := memOf σE σE.ptr
 /-- The memory of the source program in the same coordinates (origin = pointer of the emitted program). -/
 abbrev memS (σE σS : State w) : Mem w := memOf σS σE.ptr
 
-/-- `nr`: a state marked `noReturn` is related to nothing ("control never reaches this point"). -/
-structure Rel (s : Rebuild w) (ps : List (Rebuild w)) (M0 : Mem w) (σE σS : State w) : Prop where
+/-- `sh`: the source program's pointer is `sh` cells to the right of the emitted program's pointer (for the
+program being rebuilt `sh = s.shift`; for intermediate programs written in the coordinates of the state it is 0).
+`nr`: a state marked `noReturn` is related to nothing ("control never reaches this point"). -/
+structure RelAt (sh : Int) (s : Rebuild w) (ps : List (Rebuild w)) (M0 : Mem w) (σE σS : State w) : Prop where
   tr : σS.trace = σE.trace
   env : σS.env = σE.env
-  ptr : σS.ptr = σE.ptr + s.shift
+  ptr : σS.ptr = σE.ptr + sh
   nr : s.noReturn = false
   inv : MInv s ps M0 (memE σE) (memS σE σS)
+
+abbrev Rel (s : Rebuild w) (ps : List (Rebuild w)) (M0 : Mem w) (σE σS : State w) : Prop :=
+  RelAt s.shift s ps M0 σE σS
 
 theorem memOf_apply (σ : State w) (o v : Int) : memOf σ o v = σ.tape.get (o + v) := rfl
 
 theorem rd_eq_memE (σ : State w) (off : Int) : σ.rd off = memE σ off := rfl
 
-theorem Rel.rdS {s : Rebuild w} {ps : List (Rebuild w)} {M0 : Mem w} {σE σS : State w}
-    (h : Rel s ps M0 σE σS) (off : Int) : σS.rd off = memS σE σS (off + s.shift) := by
-  show σS.tape.get (σS.ptr + off) = σS.tape.get (σE.ptr + (off + s.shift))
+theorem RelAt.rdS {sh : Int} {s : Rebuild w} {ps : List (Rebuild w)} {M0 : Mem w} {σE σS : State w}
+    (h : RelAt sh s ps M0 σE σS) (off : Int) : σS.rd off = memS σE σS (off + sh) := by
+  show σS.tape.get (σS.ptr + off) = σS.tape.get (σE.ptr + (off + sh))
   rw [h.ptr]; congr 1; omega
 
 /-! ### inversion of `Exec` -/
@@ -244,15 +249,15 @@ theorem memOf_wrAll (σ : State w) (vals : List (Int × BitVec w)) (o : Int) :
     rfl
 
 /-- The source program's `calc` at the level of memories. -/
-theorem memS_doCalc {s : Rebuild w} {ps : List (Rebuild w)} {M0 : Mem w} {σE σS : State w}
-    (h : Rel s ps M0 σE σS) (calcs : List (Int × Expr w)) :
-    memS σE (doCalc σS calcs) = assignS s.shift calcs (memS σE σS) := by
+theorem memS_doCalc {sh : Int} {s : Rebuild w} {ps : List (Rebuild w)} {M0 : Mem w} {σE σS : State w}
+    (h : RelAt sh s ps M0 σE σS) (calcs : List (Int × Expr w)) :
+    memS σE (doCalc σS calcs) = assignS sh calcs (memS σE σS) := by
   rw [C01Dse.doCalc_eq]
   show memOf (C01Dse.wrAll σS _) σE.ptr = _
   rw [memOf_wrAll]
   unfold assignS
   rw [List.map_map]
-  have hsh : σS.ptr - σE.ptr = s.shift := by rw [h.ptr]; omega
+  have hsh : σS.ptr - σE.ptr = sh := by rw [h.ptr]; omega
   congr 1
   apply List.map_congr_left
   intro vc _
